@@ -19,7 +19,7 @@ PROC_RULE = ("event lists (20-200 accepted frames; motion bits from a run-length
 
 
 def proc(corr, harness, thm, faults):
-    return {"stages": [{"harness": harness, "corr": corr, "corr_src": corr + "src", "n": {"quick": 220, "thorough": 4000}, "shard": 20}],
+    return {"stages": [{"harness": harness, "corr": corr, "corr_src": corr + "src", "n": {"quick": 400, "thorough": 4000}, "shard": 20}],
             "theorems": thm, "rule": PROC_RULE % faults, "trusted_base": PROC_TB}
 
 
@@ -34,7 +34,7 @@ DET_RULE = ("frame streams (8-35 events) on grids 5x4..12x9 (dynamic threshold: 
 
 
 def det(corr, harness, thm, what):
-    return {"stages": [{"harness": harness, "corr": corr, "corr_src": corr + "src", "n": {"quick": 200, "thorough": 4000}, "shard": 20}],
+    return {"stages": [{"harness": harness, "corr": corr, "corr_src": corr + "src", "n": {"quick": 300, "thorough": 4000}, "shard": 20}],
             "theorems": thm, "rule": DET_RULE % what, "trusted_base": DET_TB}
 
 
@@ -53,24 +53,24 @@ PROPS = {
     "C02": proc("corr.C02", "PROC", "props/C02.v", "refused starts and stop failures, no write faults; compared projection: motion-sink starts/stops/ids; spec S02 (first id of every recording)"),
     "C03": proc("corr.C03", "PROC", "props/C03.v", "refused starts and stop failures, no write faults; compared projection: per event started/stopped; spec S03 (stop iff position >= limit)"),
     "C04": dict(proc("corr.C04", "PROC", "props/C04.v", "refused starts at every gate; compared projection: window consultations, gate calls, stops; spec S04; the real window library is run next to window_active"),
-                **{"stages": [{"harness": "PROC", "corr": "corr.C04", "corr_src": "corr.C04src", "n": {"quick": 220, "thorough": 4000}, "shard": 20},
+                **{"stages": [{"harness": "PROC", "corr": "corr.C04", "corr_src": "corr.C04src", "n": {"quick": 400, "thorough": 4000}, "shard": 20},
                               {"harness": "E2E", "corr": "corr.E2E14", "n": {"quick": 10, "thorough": 150}, "shard": 1}]}),
-    "C05": {"stages": [{"harness": "THROTTLE", "corr": "corr.C05", "corr_src": "corr.C05src", "n": {"quick": 200, "thorough": 5000}, "shard": 18},
+    "C05": {"stages": [{"harness": "THROTTLE", "corr": "corr.C05", "corr_src": "corr.C05src", "n": {"quick": 300, "thorough": 5000}, "shard": 18},
                        {"harness": "E2ETHR", "corr": "corr.C18lag", "n": {"quick": 2, "thorough": 12}, "shard": 8}],
             "theorems": "props/C05.v", "rule": THR_RULE % "spec: all O(n^2) windows of forwarded-write timestamps within cap+1+q*(floor((b-a)/fi)+1), cap = bucket frames, minlen = (min+preview)*fps, rate_ok",
             "trusted_base": THR_TB},
-    "C06": {"stages": [{"harness": "THROTTLE", "corr": "corr.C06", "corr_src": "corr.C06src", "n": {"quick": 200, "thorough": 5000}, "shard": 18}],
+    "C06": {"stages": [{"harness": "THROTTLE", "corr": "corr.C06", "corr_src": "corr.C06src", "n": {"quick": 300, "thorough": 5000}, "shard": 18}],
             "theorems": "props/C06.v", "rule": THR_RULE % "spec S06 (transparent / paired / cut length / one event) on conforming schedules",
             "trusted_base": THR_TB},
     "C19": {
-        "harness": "C19", "corr": "corr.C19", "corr_src": "corr.C19src", "n": {"quick": 400, "thorough": 6000},
+        "harness": "C19", "corr": "corr.C19", "corr_src": "corr.C19src", "n": {"quick": 600, "thorough": 6000},
         "theorems": "props/C19.v",
         "rule": "random op sequences over {put,move,mark,reset} for capacities 1..9 run on the real FrameLoop (weights favouring wrap-1/=/+1, marks at every phase, Reset, "
                 "moves without put); non-trivial = the ring wrapped at least once AND a mark or reset occurred; distinct by (size, op-kind string)",
         "trusted_base": TB_COMMON + ["frames are tagged by a sequence number in two pixels; CreateCopy/copy of pixel rows trusted"],
     },
     "C20": {
-        "harness": "C20", "corr": "corr.C20", "corr_src": "corr.C20src", "n": {"quick": 500, "thorough": 20000},
+        "harness": "C20", "corr": "corr.C20", "corr_src": "corr.C20src", "n": {"quick": 800, "thorough": 20000},
         "theorems": "props/C20.v",
         "rule": "histories of (message, time) over 5 messages incl. the empty one, intervals {0,1ns,1s,1min,90min}, gaps at interval-1ns/interval/"
                 "interval+1ns, zero, negative (non-monotone clock), 300-year jumps (saturating Sub), starts at Go's zero time; through Print and Printf; "
@@ -80,12 +80,12 @@ PROPS = {
     },
     "C07": det("corr.C07", "DET07", "props/C07.v", "fixed threshold, FFC-free streams with resets; spec S07 (history-based verdict) on the implementation's verdicts"),
     "C08": dict(det("corr.C08", "DET08", "props/C08.v", "paired streams differing only in border pixels (fixed and dynamic threshold) or only in pixels at/below temp-thresh (fixed); both streams run on real detectors; spec: equal verdicts, thresholds, interior background || parser half: raw Lepton/Boson frames with zeros planted on every border ring (and just inside it) through the real parsers: a border pixel never makes a frame bad"),
-                **{"stages": [{"harness": "DET08", "corr": "corr.C08", "corr_src": "corr.C08src", "n": {"quick": 200, "thorough": 4000}, "shard": 20},
+                **{"stages": [{"harness": "DET08", "corr": "corr.C08", "corr_src": "corr.C08src", "n": {"quick": 300, "thorough": 4000}, "shard": 20},
                               {"harness": "PARSE", "corr": "corr.C13p", "n": {"quick": 300, "thorough": 6000}, "shard": 60}]}),
     "C09": det("corr.C09", "DET09", "props/C09.v", "streams with FFC events at every offset/parity, resets, fixed and dynamic threshold; paired same-shape streams agreeing from the first affected frame of an FFC period; spec S09_supp + equal verdicts from the pairing point"),
     "C12": proc("corr.C12", "PROCFAULT", "props/C12.v", "failures (1-20 %) on every kind of call of all three sinks, continuous recorder on/off; each history ends with a fault-free recovery tail "
                 "(max+1 motionless frames, then max(1,trigger) motion frames, window open); compared projection: all calls with ids erased + panics; spec S12 && S12_recovers"),
-    "C13": {"stages": [{"harness": "PROCFAULT", "corr": "corr.C13", "corr_src": "corr.C13src", "n": {"quick": 160, "thorough": 3000}, "shard": 20},
+    "C13": {"stages": [{"harness": "PROCFAULT", "corr": "corr.C13", "corr_src": "corr.C13src", "n": {"quick": 300, "thorough": 3000}, "shard": 20},
                        {"harness": "PARSE", "corr": "corr.C13p", "n": {"quick": 300, "thorough": 6000}, "shard": 60},
                        {"harness": "E2E", "corr": "corr.E2E14", "n": {"quick": 5, "thorough": 100}, "shard": 1}],
             "theorems": "props/C13.v",
@@ -157,14 +157,14 @@ PROPS = {
                     "ReadHeaderInfo from a reader returning arbitrary chunk sizes (1 byte .. 4096), with trailing data, plus EVERY truncation point || stream stage: end-to-end sessions: generated config.toml (min/max/preview secs or defaults, trigger frames, throttle off / transparent / impossible, constant recorder, window none / closed, min-disk-space 0 / huge, device id/name, location, 11 motion keys each written or left to the camera-model default for lepton3 / lepton3.5 / boson), camera header encoded as the camera daemon does, 60-180 frames (8x6..16x12, a flickering hot blob that appears/moves/disappears, FFC events, bad frames, 'clear' markers, extreme values) sent in random chunk sizes over a unix socket to the real ParseConfig + handleConn (driver binary), every finished .cptv decoded with the standard reader and compared with model/System.v: per file threshold, background, frame ids; frame contents (pixels, times, temperatures) and header view compared by the harness (compared projection: frame ids per file) || "
                     "one probe of the known in-band-marker finding; non-trivial = split into more than one read / files produced; distinct by description + chunking",
             "trusted_base": TB_COMMON + ["yaml.v1 Marshal/Unmarshal: assumed decode(encode d) = d and encoder output ends with newline and has no blank line (header_text_ok evaluated on every generated header); bufio/io.ReadFull semantics = byte stream"]},
-    "C15": {"stages": [{"harness": "DET15", "corr": "corr.C15", "corr_src": "corr.C15src", "n": {"quick": 200, "thorough": 4000}, "shard": 20},
+    "C15": {"stages": [{"harness": "DET15", "corr": "corr.C15", "corr_src": "corr.C15src", "n": {"quick": 300, "thorough": 4000}, "shard": 20},
                        {"harness": "E2E", "corr": "corr.E2E15", "n": {"quick": 6, "thorough": 150}, "shard": 1},
                        {"harness": "E2ETHR", "corr": "corr.C18lag", "n": {"quick": 2, "thorough": 12}, "shard": 8}],
             "theorems": "props/C15.v",
             "rule": (DET_RULE % "dynamic threshold with all four unset/set combinations of temp-thresh-min/max, scene mean below/inside/above the range, slow warming, preview 0-3 frames; background (all pixels), weights (checksum of float32 bit patterns), threshold and backgroundFrames compared after every frame; spec S15") +
                     " || start-arguments clause: end-to-end sessions: generated config.toml (min/max/preview secs or defaults, trigger frames, throttle off / transparent / impossible, constant recorder, window none / closed, min-disk-space 0 / huge, device id/name, location, 11 motion keys each written or left to the camera-model default for lepton3 / lepton3.5 / boson), camera header encoded as the camera daemon does, 60-180 frames (8x6..16x12, a flickering hot blob that appears/moves/disappears, FFC events, bad frames, 'clear' markers, extreme values) sent in random chunk sizes over a unix socket to the real ParseConfig + handleConn (driver binary), every finished .cptv decoded with the standard reader and compared with model/System.v: per file threshold, background, frame ids; frame contents (pixels, times, temperatures) and header view compared by the harness (compared projection: threshold and background stored with each recording = the model detector's values after the trigger frame)",
             "trusted_base": DET_TB + ["theorem C15_background_and_threshold depends on the standard library's classical real-number axioms through Flocq (named in Print Assumptions); C15_partial is the axiom-free form with the four IEEE-754 facts as hypotheses"]},
-    "C17": {"stages": [{"harness": "PROC", "corr": "corr.C17", "corr_src": "corr.C17src", "n": {"quick": 220, "thorough": 4000}, "shard": 20},
+    "C17": {"stages": [{"harness": "PROC", "corr": "corr.C17", "corr_src": "corr.C17src", "n": {"quick": 400, "thorough": 4000}, "shard": 20},
                        {"harness": "E2E", "corr": "corr.E2E14", "n": {"quick": 16, "thorough": 150}, "shard": 1},
                        {"harness": "TESTREC", "corr": "corr.C18lag", "n": {"quick": 2, "thorough": 12}, "shard": 8}],
             "theorems": "props/C17.v",
